@@ -12,6 +12,7 @@ import (
 	"net/http"
 	"net/url"
 	"os"
+	"runtime"
 	"strconv"
 	"strings"
 	"sync"
@@ -63,6 +64,7 @@ type exchangeResult struct {
 	backendReq []byte
 	dialed     int
 	hung       string
+	lateProbes int    // how often the late-probe order was actually imposed
 	order      string // connected / inner-start / inner-end / disconnected, in the order they happened
 }
 
@@ -106,6 +108,10 @@ type exchangeSpec struct {
 	plan          backendPlan
 	headerTimeout time.Duration
 	ctxTimeout    time.Duration // deadline put on the request context in front of the forwarder (a timeout middleware)
+	// lateProbe: the transport's last read of the request body (the probe for bytes beyond the declared length) is
+	// scheduled after the response has started to reach the client. Otherwise the backend answers only once the
+	// proxy has finished sending the request. (net/http leaves this order to the goroutine scheduler.)
+	lateProbe bool
 	// client behaviour
 	clientCloseWhenBackendHasRequest bool // client goes away while the backend is stalled before responding
 	clientCloseAfterBody             int  // >0: client closes after reading that many body bytes (backend stalled mid-body)
@@ -121,6 +127,11 @@ func runExchange(spec exchangeSpec) exchangeResult {
 	backendGotRequest := make(chan struct{})
 	releaseBackend := make(chan struct{})
 	backendDone := make(chan struct{})
+	probed := make(chan struct{}) // late-probe order: the probe has been made (or the transport is done with the request body)
+	var probedOnce sync.Once
+	reqWritten := make(chan struct{}) // the proxy's transport has finished sending the request (it then closes the request body)
+	var reqWrittenOnce sync.Once
+	var cc *memConn
 	var backendOnce sync.Once
 	var backendConns []*memConn
 
@@ -174,10 +185,25 @@ func runExchange(spec exchangeSpec) exchangeResult {
 		res.backendReq = append([]byte(nil), got.Bytes()...)
 		mu.Unlock()
 		close(backendGotRequest)
+		if !spec.lateProbe {
+			select {
+			case <-reqWritten:
+			case <-releaseBackend:
+			}
+		}
 		p := spec.plan
 		out := p.response
 		if p.cutAt >= 0 && p.cutAt < len(out) {
 			out = out[:p.cutAt]
+		}
+		if spec.lateProbe && len(out) > p.headLen+lateProbeFirstPart {
+			// the response starts, the transport's probe of the request body happens, the response goes on
+			_, _ = c.Write(out[:p.headLen+lateProbeFirstPart])
+			out = out[p.headLen+lateProbeFirstPart:]
+			select {
+			case <-probed:
+			case <-releaseBackend:
+			}
 		}
 		if len(out) > 0 {
 			_, _ = c.Write(out)
@@ -232,6 +258,15 @@ func runExchange(spec exchangeSpec) exchangeResult {
 		mark("inner-start")
 		defer mark("inner-end")
 		req.URL = &url.URL{Scheme: "http", Host: backendHost}
+		if req.Body != nil && req.Body != http.NoBody && req.ContentLength != 0 {
+			req.Body = &orderedBody{rc: req.Body, written: func() { reqWrittenOnce.Do(func() { close(reqWritten) }); probedOnce.Do(func() { close(probed) }) },
+				probed: func() { probedOnce.Do(func() { close(probed) }) },
+				late: spec.lateProbe, responseStarted: func() bool { return cc != nil && cc.received() > 0 }, giveUp: releaseBackend,
+				imposed: func() { mu.Lock(); res.lateProbes++; mu.Unlock() }}
+		} else {
+			reqWrittenOnce.Do(func() { close(reqWritten) })
+			probedOnce.Do(func() { close(probed) })
+		}
 		if spec.tlsOn {
 			req.TLS = &tls.ConnectionState{}
 		}
@@ -261,7 +296,8 @@ func runExchange(spec exchangeSpec) exchangeResult {
 	}), "", 0)}
 	go func() { _ = srv.Serve(proxyLn) }()
 
-	cc, err := proxyLn.dial(spec.peerAddr)
+	var err error
+	cc, err = proxyLn.dial(spec.peerAddr)
 	if err != nil {
 		res.hung = "cannot reach proxy listener"
 		return res
@@ -377,4 +413,55 @@ func valuesOf(fields [][2]string, name string) []string {
 		}
 	}
 	return out
+}
+
+// orderedBody is the inbound request body as the forwarder sees it. It does not change a byte; it fixes the order of
+// two events that net/http leaves to the goroutine scheduler: the transport's last read of the body (after the
+// declared length has been delivered it probes for more) and the start of the response. Default: the transport
+// finishes with the request before the backend answers. late: the probe happens once the response has started to
+// reach the client - by then the server in front of the proxy has closed the request body.
+type orderedBody struct {
+	rc              io.ReadCloser
+	written         func()
+	late            bool
+	responseStarted func() bool
+	giveUp          chan struct{}
+	imposed         func()
+	probed          func()
+	sawEOF          bool
+}
+
+// in the late-probe order the backend sends the head and this much of the body, waits for the probe, and sends the
+// rest; enough for the server in front of the proxy to have put the head on the wire
+const lateProbeFirstPart = 20000
+
+func (b *orderedBody) Read(p []byte) (int, error) {
+	if b.sawEOF && b.late {
+		for waited := false; !b.responseStarted(); waited = true {
+			select {
+			case <-b.giveUp:
+				return b.rc.Read(p)
+			default:
+			}
+			if !waited {
+				b.imposed()
+			}
+			runtime.Gosched()
+			time.Sleep(50 * time.Microsecond)
+		}
+	}
+	late := b.sawEOF && b.late
+	n, err := b.rc.Read(p)
+	if err == io.EOF {
+		b.sawEOF = true
+	}
+	if late {
+		b.probed()
+	}
+	return n, err
+}
+
+func (b *orderedBody) Close() error {
+	b.written()
+	return b.rc.Close()
 }
